@@ -130,12 +130,18 @@ def mkLoader (tbl : List (String × Option String)) : Url → Except String Stri
 def sortedKeys (C : Cache String) : List String :=
   (C.keys.mergeSort fun a b => !(b < a)).eraseDups
 
+/-- optional `"project":[key…]`: answer with these members only -/
+def project (j : Lean.Json) (ms : List (String × Lean.Json)) : Lean.Json :=
+  match Wire.strList j "project" with
+  | .ok ks => Lean.Json.mkObj (ms.filter fun m => ks.contains m.1)
+  | .error _ => Lean.Json.mkObj ms
+
 def simulate (j : Lean.Json) : Except String String := do
   let C ← readInitial j
   let L := mkLoader (← readPairs j "loader")
   let prog ← readProg (← Wire.arrField j "prog")
   let r := runSeq (compile prog []) C L
-  pure (Lean.Json.mkObj [
+  pure (project j [
     ("results", .arr r.result.toArray),
     ("log", strArr r.log),
     ("cache", strArr (sortedKeys r.cache)),
@@ -151,7 +157,7 @@ def simulateSched (j : Lean.Json) : Except String String := do
     | .num n => if n.exponent == 0 && n.mantissa ≥ 0 then pure n.mantissa.toNat else throw "bad-op:sched"
     | _ => throw "bad-op:sched"
   let c := runSched (Config.init (progs.map fun p => compile p []) C) L sched
-  pure (Lean.Json.mkObj [
+  pure (project j [
     ("results", .arr (c.results.map fun r => match r with
         | some xs => Lean.Json.arr xs.toArray
         | none => Lean.Json.null).toArray),
